@@ -25,6 +25,7 @@ PROP_MODULES = {
             ("CodeTies", r"reduce_tie"), ("CodeTies2", r"prime_add|prime_sub|prime_prod|prime_setneg|prime_fromSigned|bin_add|bin_prod")],
     "C02": [("C01Prime", r"inv_|invLoop|pow|powLoop"), ("C01Bin", r"pow|inv|bitProd|bitQuoRem|trace"), ("C02", r".*"),
             ("C01Ext", r"pow|inv|trace"), ("CodeTies", r"bitProd_tie|bitQuoRem_tie"), ("CodeTies2", r"prime_inv")],
+    "C04": [("C04", r".*"), ("C04Full", r".*")],
     "C08": [("C08", r".*"), ("CodeTies", r"addDegs_tie|subtractDegs_tie")],
     "C09": [("C09", r".*"), ("CodeTies", r"swap_tie|lex_tie|lex_fun_tie|degCompare_tie|wdeglex_tie|wdegrevlex_tie|deglex_tie|degrevlex_tie")],
     "C19": [("C19", r".*"), ("CodeTies", r"boundSqrt_tie|boundLog2_tie|pow_tie|gcd_tie"), ("CodeTies2", r"fpp_")],
@@ -101,7 +102,7 @@ def proof_side(pid, res, tier):
         for m in FORBIDDEN.finditer(txt):
             bad.append("%s: %s" % (mod, m.group(0).strip()))
         # native_decide may occur only in C04's own modules (Props/C04, Certs/*); other properties may import them
-        if re.search(r"\bnative_decide\b", txt) and not (mod == "Algobra.Props.C04" or mod.startswith("Algobra.Certs.")):
+        if re.search(r"\bnative_decide\b", txt) and not (mod in ("Algobra.Props.C04", "Algobra.Props.C04Full") or mod.startswith("Algobra.Certs.")):
             bad.append("%s: native_decide" % mod)
     info["modules"] = sorted(seen)
     info["forbidden"] = bad
@@ -124,7 +125,7 @@ def proof_side(pid, res, tier):
         extra = set(ax) - ALLOWED_AXIOMS
         # the assembly corollaries "for every field Define returns over the real database" (Props/C01.lean)
         # import C04's table sweeps and inherit their native_decide axioms (DESIGN.md §2); nothing else may
-        if pid in NATIVE_OK or n.startswith("Algobra.C01."):
+        if pid in NATIVE_OK or n.startswith("Algobra.C01.") or n.startswith("Algobra.C04Full."):
             if any("._native.native_decide.ax_" in a for a in ax):
                 info.setdefault("native_dependent", []).append(n)
             extra -= NATIVE_AXIOMS
